@@ -479,10 +479,13 @@ func runRelayCase(e *relayEnv, r *rand.Rand, rc relayCase) *relayOutcome {
 		if !rc.CloseLn {
 			return
 		}
+		// "exists" = upload bytes have come out at the target: the server's dial has returned and the
+		// copy loops run (the target's accept alone can precede the return of the server's dial, which a
+		// cancelled context would still turn into a failed connect)
 		established := false
 		for dl := time.Now().Add(3 * time.Second); time.Now().Before(dl) && !established; time.Sleep(time.Millisecond) {
 			tmu.Lock()
-			established = out.TargetConns > 0
+			established = len(out.TargetGot) > 0
 			tmu.Unlock()
 		}
 		if established {
@@ -523,8 +526,17 @@ func runRelayCase(e *relayEnv, r *rand.Rand, rc relayCase) *relayOutcome {
 		if err != nil {
 			return err
 		}
+		rest := wire[max(hdrLen, min(len(wire), 60)):]
+		if rc.CloseLn && len(rest) > 0 {
+			// two thirds of the upload go out first, so that the relay demonstrably moves data
+			n := len(rest) * 2 / 3
+			if err := cl.WriteRaw(rest[:n]); err != nil {
+				return err
+			}
+			rest = rest[n:]
+		}
 		closeLn()
-		return cl.WriteRaw(wire[max(hdrLen, min(len(wire), 60)):])
+		return cl.WriteRaw(rest)
 	}
 	switch rc.Mode {
 	case "target-done-early":
